@@ -10,6 +10,8 @@ pub enum Proj {
     Exact,
     /// only the outcome class (`ok` / `err` / `panic`) is compared
     Class,
+    /// only "panicked or returned" is compared
+    NoPanic,
     /// nothing is compared with the model (oracle-only case)
     None,
 }
@@ -27,14 +29,17 @@ pub struct Case {
     pub nontrivial: bool,
     /// counters for the measured input distribution
     pub tags: Vec<String>,
+    /// request evaluated by the independent specification in the driver, and the check of the
+    /// implementation's output against the specification's answer
+    pub spec: Option<(String, fn(&str, &str) -> Option<(String, String)>)>,
 }
 
 impl Case {
     pub fn new(op: String, impl_out: String) -> Self {
-        Case { op, impl_out, proj: Proj::Exact, oracle_fail: None, nontrivial: true, tags: vec![] }
+        Case { op, impl_out, proj: Proj::Exact, oracle_fail: None, nontrivial: true, tags: vec![], spec: None }
     }
     pub fn oracle_only() -> Self {
-        Case { op: String::new(), impl_out: String::new(), proj: Proj::None, oracle_fail: None, nontrivial: true, tags: vec![] }
+        Case { op: String::new(), impl_out: String::new(), proj: Proj::None, oracle_fail: None, nontrivial: true, tags: vec![], spec: None }
     }
     pub fn tag(mut self, t: &str) -> Self {
         self.tags.push(t.to_string());
@@ -46,6 +51,10 @@ impl Case {
     }
     pub fn trivial(mut self, t: bool) -> Self {
         self.nontrivial = !t;
+        self
+    }
+    pub fn spec(mut self, op: String, check: fn(&str, &str) -> Option<(String, String)>) -> Self {
+        self.spec = Some((op, check));
         self
     }
     pub fn fail(mut self, key: &str, msg: String) -> Self {
@@ -155,10 +164,23 @@ pub fn evaluate(property: &str, driver: &str, cases: Vec<Case>) -> Report {
         let same = match c.proj {
             Proj::Exact => *m == c.impl_out,
             Proj::Class => class_of(m) == class_of(&c.impl_out),
+            Proj::NoPanic => (class_of(m) == "panic") == (class_of(&c.impl_out) == "panic"),
             Proj::None => true,
         };
         if !same || m == "bad-op" || m == "driver-died" {
             rep.disagreements.push((*i, c.op.clone(), c.impl_out.clone(), m.clone()));
+        }
+    }
+    // the specification's verdict on the implementation's output
+    let sidx: Vec<usize> = cases.iter().enumerate().filter(|(_, c)| c.spec.is_some()).map(|(i, _)| i).collect();
+    let sops: Vec<&str> = sidx.iter().map(|i| cases[*i].spec.as_ref().unwrap().0.as_str()).collect();
+    let sout = run_driver(driver, &sops);
+    rep.extra.insert("checked_against_spec".to_string(), J::Int(sops.len() as i64));
+    for (k, i) in sidx.iter().enumerate() {
+        let c = &cases[*i];
+        let (op, check) = c.spec.as_ref().unwrap();
+        if let Some((key, msg)) = check(&c.impl_out, &sout[k]) {
+            rep.oracle_failures.push((*i, key, format!("{} [spec: {}]", msg, sout[k]), op.clone()));
         }
     }
     let step = (cases.len() / 6).max(1);
